@@ -142,6 +142,7 @@ def analyzeChunk (d : DType) (fl : Flags) (level : Nat) (c : DChunk) (vals : Lis
     s!"congr={b01 (congruentB ps us)} tree={b01 (treeB ps)} leaves={b01 (leavesB level ps)} moments={b01 (momentsB d fl vals c.cm)} " ++
     s!"gcdexact={b01 (gcdExactB gbFloat fl c.cm us)} emptyiff={b01 (ps.isEmpty == us.isEmpty)} grouped={b01 blocks.isSome} " ++
     s!"bodybits={bodyB} bodybytes={c.cm.bodyBytes} nprefs={ps.length} maxcode={maxcode} W={W} nus={us.length} " ++
+    s!"metabits={(encChunkMeta gbFloat d fl c.cm).length + 8} prefbits={(ps.map fun p => (encPrefix gbFloat (prefDType d fl) fl c.cm.n (!fl.gcds || c.cm.commonGcd.isSome) p).length).foldl max 0} " ++
     s!"dom={domCount} runs={runs} others={others} domjump={b01 domJump} allequal={b01 (us.all (· == us.headD 0))} tags={tags}"
   (str, blocks.map fun bs => { cm := c.cm, blocks := bs })
 
